@@ -91,3 +91,16 @@ def stale(prop_id, repo_dir, mirrors):
         base = json.load(f)
     changed = sorted(k for k in set(cur) | set(base) if cur.get(k) != base.get(k))
     return changed, cur
+
+
+def mirrors_of(mod, prop_id):
+    """MIRRORS of the property module, else every function of the property's anchor files."""
+    m = getattr(mod, 'MIRRORS', None)
+    if m:
+        return m
+    with open(os.path.join(VERIF, 'properties.jsonl')) as f:
+        for line in f:
+            p = json.loads(line)
+            if p['id'] == prop_id:
+                return [(rel, None) for rel in p['anchors']['files']]
+    return []
